@@ -4,6 +4,7 @@ CONSTANTS
   ValueSet <- ValuesS
   AttrSet <- AttrsS
   MaxOps = 3
+  Flags = FALSE
   FreeRaise = TRUE
 VIEW View
 INVARIANT Emitted
